@@ -395,3 +395,15 @@ def _strip_opaque(f):
             return None
         return (f[0], xs)
     return f
+
+
+def mentions_param(t, names):
+    return any(x.k == "param" and x.a[0] in names for x in walk(t))
+
+
+def irrelevant_unless(pred):
+    """irrelevance test for Formulas: a condition is irrelevant to the rule when it is aggregate-only or does
+    not mention the guarded subject at all (pred(term) false)"""
+    def f(t):
+        return aggregate_only(t) or not pred(t)
+    return f
